@@ -694,3 +694,32 @@ def sibling_compare(ctx, R, rule):
                 exp = 'a recognised result shape'
             R.inst(rule, 'siblings-agree/%s' % T.short(s)[:50], ok, expected=exp, found=b, entry=pb, note=None if ok else 'text side: %s under %s ; byte side under %s' % (T.short(s), pc_text(S['pc'], 5), pc_text(Bt['pc'], 6)))
     return n
+
+
+def missing_rule(ctx, R, rule):
+    """A Missing* verdict (incomplete) is produced only when the token is really absent (or empty and last) and nothing was validated:
+    necessary for C05 (prefixes) and for C18 (no incomplete verdict while later tokens are already present)."""
+    m = model(ctx, R)
+    ev, outs = m.fp_outs()
+    if not outs:
+        return
+    srcs = split_sources(outs)
+    if len(srcs) != 1:
+        return
+    src = next(iter(srcs))
+    tk = lambda k: ('call', 'tok', (src, I(k)))
+    has = lambda k: ('call', 'has_tok', (src, I(k)))
+    n = 0
+    for o in outs:
+        v = err_variant(o)
+        if v in MISSING:
+            k = MISSING[v]
+            val_ords = set()
+            for a in o['pc']:
+                if is_validation(a):
+                    val_ords |= {j for j in token_ordinals(a) if j != 'mu' and j >= 2}
+            ok = (T.bnot(has(k)) in o['pc'] or (T.eq0(T.mk_len(tk(k))) in o['pc'] and T.bnot(has(k + 1)) in o['pc'])) and not val_ords
+            R.inst(rule, 'missing-token-%d-only-when-absent' % k, ok, expected='%s exactly when token %d is absent (or empty and last), nothing validated yet' % (v, k),
+                   found=pc_text(o['pc'], 8), entry=m.fp)
+            n += 1
+    R.floor('Missing* outcomes examined', n, 8)
